@@ -165,7 +165,7 @@ struct Exact {
     }
     ~Exact() { free(p); }
 #else
-    vx::GuardBuf g{1u << 20};
+    vx::GuardBuf g{1u << 23};
     std::vector<C> tmp;
     const C       *put(const Text &t) {
         tmp.resize(t.size());
